@@ -35,6 +35,28 @@ Translation rules (anything else is a *gap*: reported, never skipped):
     `Point3DWithDiam(x=, y=, z=[, diameter=])` (+ later `p.diameter = e`), `Segment(distal=, proximal=)`.
 
 The two files must give the same translation for every function, otherwise a gap is reported.
+
+Surface shapes read as the same statement (each holds for ALL inputs; the reason is next to the rule in the code):
+  `x: T = e` = `x = e`;  `a, b = e1, e2` = `a = e1; b = e2` when no target is read on the right;  `pass`;
+  `return A if c else B` = `if c: return A else: return B`;  `p = self.proximal` / `par = seg.parent` (alias of an optional
+  member: substituted);  `return Point3DWithDiam(x=, y=, z=, diameter=)` = binding the finished point first;
+  `raise K("prefix %s .." % a)` / `"prefix {} ..".format(a)` / f-string / `+`: the leading constant is the message;
+  (already before: `is None`/`== None`/truthiness of the optional members, `elif`/`else` after a branch that returns or
+  raises = early return, `not a == b` = `a != b`, `sqrt(e)` = `math.sqrt(e)` = `e ** 0.5`, `pi` = `math.pi`, docstrings,
+  annotations of parameters and of the result).
+
+NORMALISER (robustness: a behaviour-preserving rewrite must leave Gen/Geom.lean byte-identical, so no proof changes).
+After a function has been translated as above, it is translated once more in "norm mode" into a canonical text (`canon`)
+and compared with the canonical text of the reference shape of that function (py2lean_geom_canon.CANON_SRC = today's
+source).  Equal canonical texts <=> the two Lean definitions are the same term up to
+  (a) names of bound variables (renamed locals),   (b) unfolding of pure `let`s (a local introduced or inlined),
+  (c) `match c with | .error e => .error e | .ok v => .ok v` = `c` (`x = f(..); return x` = `return f(..)`),
+  (d) the order of the arms of a `match` on an optional / of an `if` whose condition is negated;
+then the text of the REFERENCE translation is emitted.  Expression texts are compared literally and the order of
+overflow guards, helper calls and tests is part of the canonical text: floating-point arithmetic is never re-associated or
+reordered, and a rewrite that changes which exception comes first is not identified.  In every other case the function's
+own translation is emitted exactly as before (or the gap is reported): nothing is guessed.
+`python translators/test_py2lean_geom_norm.py` = self-test (harmless variants / breaking variants / refused shapes).
 """
 import ast
 import os
@@ -153,13 +175,19 @@ def render(t, ind):
 
 # ------------------------------------------------------------------ translation of one function
 class Fn:
-    def __init__(self, cls, name, node):
+    def __init__(self, cls, name, node, norm=False):
         self.cls, self.name, self.node = cls, name, node
         self.ret_type = None
         self.fresh = 0
+        # norm = True: "normalising" translation, used ONLY to decide whether two sources are the same Lean term (see
+        # `signature` / `canon`): every bound variable gets a provisional token ‹k› (no Python identifier can look like
+        # that) and a pure `x = e` binds x to the TEXT of e (the `let` is unfolded).  Never rendered to Lean.
+        self.norm = norm
 
     def newvar(self, hint):
         self.fresh += 1
+        if self.norm:
+            return "‹%d›" % self.fresh
         return "%s_%d" % (hint, self.fresh) if self.fresh > 1 or hint == "t" else hint
 
     # ---- expressions.  returns (lean_string_atomic_or_parenthesised, type); appends hoisted steps to `pre`
@@ -174,6 +202,8 @@ class Fn:
                 val, ty = env["vars"][n.id]
                 if isinstance(val, SymPt):
                     return self.close_pt(val, n), "pt"
+                if ty in ("opt_pt", "opt_par") and val in env["unwrapped"]:   # alias of an optional, tested since
+                    return env["unwrapped"][val], ty[4:]
                 return val, ty
             if n.id == "pi":
                 return "(GeomOps.pi : α)", "num"
@@ -378,9 +408,10 @@ class Fn:
                 node, is_none = test.left, True
             elif isinstance(test.ops[0], (ast.NotEq, ast.IsNot)):
                 node, is_none = test.left, False
-        elif isinstance(test, ast.Attribute):
+        elif isinstance(test, (ast.Attribute, ast.Name)):
             node, is_none = test, False           # truthiness of an object without __bool__/__len__: `is not None`
-        elif isinstance(test, ast.UnaryOp) and isinstance(test.op, ast.Not) and isinstance(test.operand, ast.Attribute):
+        elif isinstance(test, ast.UnaryOp) and isinstance(test.op, ast.Not) \
+                and isinstance(test.operand, (ast.Attribute, ast.Name)):
             node, is_none = test.operand, True
         if node is None:
             return None
@@ -401,6 +432,32 @@ class Fn:
         s, rest = stmts[0], stmts[1:]
         if isinstance(s, ast.Expr) and isinstance(s.value, ast.Constant) and isinstance(s.value.value, str):
             return self.block(rest, env)          # docstring / bare string
+        if isinstance(s, ast.Pass):
+            return self.block(rest, env)          # no effect
+        if isinstance(s, ast.Return) and isinstance(s.value, ast.IfExp):
+            # `return A if c else B`  =  `if c: return A` / `else: return B`   (c is evaluated first and exactly one of
+            # A, B after it, in both forms)
+            e = s.value
+            branch = lambda v: [ast.copy_location(ast.Return(value=v), s)]
+            return self.block([ast.copy_location(ast.If(test=e.test, body=branch(e.body), orelse=branch(e.orelse)), s)]
+                              + list(rest), env)
+        if isinstance(s, ast.AnnAssign):
+            # `x: T = e` = `x = e` (annotations of locals are not evaluated inside a function body)
+            if not (isinstance(s.target, ast.Name) and s.value is not None and s.simple):
+                raise Gap("unsupported annotated assignment (%s)" % where(s))
+            return self.block([ast.copy_location(ast.Assign(targets=[s.target], value=s.value), s)] + list(rest), env)
+        if isinstance(s, ast.Assign) and len(s.targets) == 1 and isinstance(s.targets[0], ast.Tuple) \
+                and isinstance(s.value, ast.Tuple):
+            # `a, b = e1, e2` = `a = e1; b = e2` when no target name is read by any of the right-hand sides (then the
+            # right-hand sides are evaluated in the same order and see the same values; binding a local raises nothing)
+            tg, vs = s.targets[0].elts, s.value.elts
+            if len(tg) != len(vs) or not all(isinstance(t, ast.Name) for t in tg) or len({t.id for t in tg}) != len(tg):
+                raise Gap("unsupported tuple assignment (%s)" % where(s))
+            read = {m.id for v in vs for m in ast.walk(v) if isinstance(m, ast.Name)}
+            if read & {t.id for t in tg}:
+                raise Gap("tuple assignment whose targets are read on its right-hand side (%s)" % where(s))
+            seq = [ast.copy_location(ast.Assign(targets=[t], value=v), s) for t, v in zip(tg, vs)]
+            return self.block(seq + list(rest), env)
         if isinstance(s, ast.Return):
             if rest:
                 raise Gap("statements after return (%s)" % where(s))
@@ -409,7 +466,9 @@ class Fn:
             pre = []
             v, ty = self.ex(s.value, env, pre)
             if isinstance(v, SymPt):
-                raise Gap("returning a point under construction directly (%s)" % where(s))
+                # `return Point3DWithDiam(x=, y=, z=, diameter=)`: the finished point (close_pt refuses a point with a
+                # field that was never set); same value as binding it to a local first
+                v, ty = self.close_pt(v, s), "pt"
             if ty not in ("num", "pt"):
                 raise Gap("return of %s (%s)" % (ty, where(s)))
             if self.ret_type not in (None, ty):
@@ -431,10 +490,23 @@ class Fn:
                 v, ty = self.ex(s.value, env, pre)
                 env2 = self.fork(env)
                 if isinstance(v, SymPt):
+                    if not isinstance(s.value, ast.Call):
+                        # `q = p` with p under construction: a later `p.diameter = e` would also change q (same object)
+                        raise Gap("second name for a point under construction (%s)" % where(s))
                     env2["vars"][t.id] = (v, "sympt")
                     return self.wrap(pre, self.block(rest, env2))
+                if ty in ("opt_pt", "opt_par") and not pre:
+                    # alias of an optional member (`p = self.proximal`): a second name for the same object - members are
+                    # never assigned in the translated functions (that is a gap) - so it is substituted, not bound
+                    env2["vars"][t.id] = (v, ty)
+                    return self.block(rest, env2)
                 if ty not in ("num", "pt", "seg", "id"):
                     raise Gap("assignment of %s to %s (%s)" % (ty, t.id, where(s)))
+                if self.norm:
+                    # v is a bound variable (result of a helper call) or the text of a pure, total expression; the
+                    # guards / calls that evaluating it needs stay HERE, in order (`pre`), only the name is dropped
+                    env2["vars"][t.id] = (v, ty)
+                    return self.wrap(pre, self.block(rest, env2))
                 nm = lname(t.id)
                 if pre and pre[-1][0] == "bind" and pre[-1][1] == v:   # x = helper(...): bind straight to x
                     pre[-1] = ("bind", nm, pre[-1][2])
@@ -490,11 +562,30 @@ class Fn:
             m = m.left
         if isinstance(m, ast.JoinedStr) and m.values and isinstance(m.values[0], ast.Constant):
             m = m.values[0]
+        # "prefix %s ..." % args  /  "prefix {} ...".format(args): the text before the first conversion is a literal
+        # prefix of the message (only the leading constant is modelled, whichever way the message is assembled)
+        if isinstance(m, ast.BinOp) and isinstance(m.op, ast.Mod) and isinstance(m.left, ast.Constant) \
+                and isinstance(m.left.value, str) and m.left.value.split("%", 1)[0] and "%" in m.left.value:
+            m = ast.Constant(value=m.left.value.split("%", 1)[0])
+        elif isinstance(m, ast.Call) and isinstance(m.func, ast.Attribute) and m.func.attr == "format" \
+                and isinstance(m.func.value, ast.Constant) and isinstance(m.func.value.value, str) \
+                and "{" in m.func.value.value and m.func.value.value.split("{", 1)[0]:
+            m = ast.Constant(value=m.func.value.value.split("{", 1)[0])
         if not (isinstance(m, ast.Constant) and isinstance(m.value, str)):
             raise Gap("raise message does not start with a string constant (%s)" % where(s))
         return Fail(e.func.id, m.value)
 
     def translate(self):
+        head, body = self.parts()
+        return head + render(body, 1) + "\n"
+
+    def signature(self):
+        """canonical text of the translation (norm mode): equal signatures = the same Lean function, see `canon`"""
+        assert self.norm
+        head, body = self.parts()
+        return rename_provisional("H[%s]%s" % (head, canon(body)))
+
+    def parts(self):
         fn = self.node
         key = (self.cls, self.name)
         decos = [ast.dump(d) for d in fn.decorator_list]
@@ -525,7 +616,115 @@ class Fn:
         body = self.block(list(fn.body), env)
         head = "def %s.%s {α : Type} [GeomOps α] %s :\n    Except Err (%s) :=\n" % (
             self.cls, self.name, " ".join(params), LEAN_TY[self.ret_type])
-        return head + render(body, 1) + "\n"
+        return head, body
+
+
+# ------------------------------------------------------------------ normaliser: which translations are the same function
+def is_atomic(x):
+    """x is one token or one parenthesised group (everything `Fn.ex` returns is)"""
+    if not x:
+        return False
+    if x[0] != "(":
+        return not any(c in x for c in " ()")
+    depth = 0
+    for i, c in enumerate(x):
+        depth += c == "("
+        depth -= c == ")"
+        if depth == 0:
+            return i == len(x) - 1
+    return False
+
+
+def strip_not(c):
+    """X when c is the text `(!X)` of a negated condition, else None"""
+    if c.startswith("(!") and c.endswith(")") and is_atomic(c) and is_atomic(c[2:-1]):
+        return c[2:-1]
+    return None
+
+
+def canon(t):
+    """Canonical text of an output tree produced in norm mode (bound variables are provisional tokens, pure lets are
+    already unfolded).  Two trees with the same canonical text (after `rename_provisional`) denote the same Lean
+    function; each identification is an equality of Lean terms that holds for ALL inputs:
+      * names of bound variables                                   - alpha-equivalence
+      * `let x := e; b` = b[e/x], e a pure total term                - zeta (the guards / calls needed to evaluate e are
+                                                                      separate nodes and keep their place and order)
+      * `match c with | .error e => .error e | .ok v => .ok v` = c  - eta for `Except` (x = f(); return x = return f())
+      * `match o with | some v => A | none => B`: order of the arms - the arms are disjoint and exhaustive
+      * `if !c then A else B` = `if c then B else A`                 - Bool case split
+    Nothing else: in particular no arithmetic is touched (expression texts are compared literally, so `a+b` and `b+a`,
+    `(a*b)*c` and `a*(b*c)`, `x/2` and `0.5*x` stay different), and the ORDER of guards, helper calls and tests is kept
+    (so a rewrite that changes which exception is raised first is not identified with the original)."""
+    if isinstance(t, Bind):
+        if isinstance(t.body, Ok) and t.body.expr == t.var:
+            return "T[%s]" % t.call
+        return "B[%s|%s|%s]" % (t.var, t.call, canon(t.body))
+    if isinstance(t, Tail):
+        return "T[%s]" % t.call
+    if isinstance(t, MatchOpt):
+        return "M[%s|%s|%s|%s]" % (t.opt, t.var, canon(t.none_b), canon(t.some_b))
+    if isinstance(t, Ite):
+        c, a, b = t.cond, t.a, t.b
+        while strip_not(c) is not None:
+            c, a, b = strip_not(c), b, a
+        return "I[%s|%s|%s]" % (c, canon(a), canon(b))
+    if isinstance(t, Ok):
+        return "O[%s]" % t.expr
+    if isinstance(t, Fail):
+        return "F[%s|%s]" % (q(t.kind), q(t.msg))
+    raise AssertionError(t)     # a Let cannot occur in norm mode
+
+
+def rename_provisional(text):
+    """provisional tokens ‹k› -> ‹#i› in order of first occurrence in the canonical text (a binder occurs before its uses)"""
+    seen = {}
+
+    def sub(m):
+        return seen.setdefault(m.group(0), "‹#%d›" % (len(seen) + 1))
+    return re.sub(r"‹\d+›", sub, text)
+
+
+_REF = None
+
+
+def reference():
+    """{key: (lean_text, signature)} of the canonical shapes in py2lean_geom_canon.CANON_SRC"""
+    global _REF
+    if _REF is None:
+        _REF = {}
+        try:
+            sys.path.insert(0, os.path.dirname(os.path.abspath(__file__)))
+            from py2lean_geom_canon import CANON_SRC
+        except ImportError:
+            CANON_SRC = {}
+        finally:
+            sys.path.pop(0)
+        for key, src in CANON_SRC.items():
+            try:
+                node = ast.parse(src).body[0]
+                _REF[key] = (Fn(key[0], key[1], node).translate(), Fn(key[0], key[1], node, norm=True).signature())
+            except (Gap, SyntaxError, RecursionError, AssertionError, IndexError):
+                pass           # no reference for this function: its current source is emitted as it is
+    return _REF
+
+
+NORMALISED = []     # [(file label, class, function)] of the last translate_repo: emitted in the canonical shape
+
+
+def emit(cls, name, node, label=""):
+    """Lean text for the CURRENT source `node`.  If its translation is the same function as the translation of the
+    canonical shape (equal signatures), the canonical text is emitted (so that Gen/Geom.lean stays byte-identical under
+    behaviour-preserving rewrites of the surface syntax); otherwise - and always when in doubt - its own translation."""
+    text = Fn(cls, name, node).translate()                     # raises Gap exactly as before: nothing is guessed
+    ref = reference().get((cls, name))
+    if ref is not None and ref[0] != text:
+        try:
+            if Fn(cls, name, node, norm=True).signature() == ref[1]:
+                NORMALISED.append((label, cls, name))
+                return ref[0]
+        except (Gap, AssertionError, RecursionError):
+            pass
+    return text
 
 
 # ------------------------------------------------------------------ source extraction
@@ -637,6 +836,7 @@ def stub(key):
 def translate_repo(repo):
     """returns (lean_text, gaps)"""
     gaps = []
+    del NORMALISED[:]
     hp = os.path.join(repo, "neuroml", "nml", "helper_methods.py")
     np_ = os.path.join(repo, "neuroml", "nml", "nml.py")
     with open(hp, encoding="utf-8") as fh:
@@ -656,7 +856,7 @@ def translate_repo(repo):
                 gaps.append("%s: %d definitions of %s.%s (expected 1)" % (label, len(nodes), key[0], key[1]))
                 continue
             try:
-                texts[label] = Fn(key[0], key[1], nodes[0]).translate()
+                texts[label] = emit(key[0], key[1], nodes[0], label)
             except Gap as g:
                 gaps.append("%s: %s.%s: %s" % (label, key[0], key[1], g))
             except RecursionError:
@@ -689,11 +889,35 @@ def regenerate(repo, out_path):
     return gaps
 
 
+def print_canon(repo):
+    """text of translators/py2lean_geom_canon.py's CANON_SRC for the tree `repo` (to refresh the reference shapes after an
+    accepted change of the code): the functions of nml.py without docstrings and annotations, `ast.unparse`d"""
+    with open(os.path.join(repo, "neuroml", "nml", "nml.py"), encoding="utf-8") as fh:
+        found = find_in_nml(ast.parse(fh.read()))
+    print("CANON_SRC = {")
+    for key in TARGETS:
+        n = found[key][0]
+        b = n.body
+        if isinstance(b[0], ast.Expr) and isinstance(b[0].value, ast.Constant) and isinstance(b[0].value.value, str):
+            n.body = b[1:]
+        n.returns = None
+        for a in n.args.args:
+            a.annotation = None
+        print("    (%r, %r): \'\'\'\\\n%s\n\'\'\'," % (key[0], key[1], ast.unparse(n).replace("\\", "\\\\")))
+    print("}")
+
+
 if __name__ == "__main__":
-    repo = sys.argv[1] if len(sys.argv) > 1 else os.environ.get("VERIF_REPO", "/repo")
+    args = [a for a in sys.argv[1:] if not a.startswith("--")]
+    repo = args[0] if args else os.environ.get("VERIF_REPO", "/repo")
+    if "--print-canon" in sys.argv:
+        print_canon(repo)
+        sys.exit(0)
     here = os.path.dirname(os.path.dirname(os.path.abspath(__file__)))
-    out = sys.argv[2] if len(sys.argv) > 2 else os.path.join(here, "lean", "NmlVerif", "Gen", "Geom.lean")
+    out = args[1] if len(args) > 1 else os.path.join(here, "lean", "NmlVerif", "Gen", "Geom.lean")
     gs = regenerate(repo, out)
     for g in gs:
         print("GAP:", g)
+    for n in NORMALISED:
+        print("normalised to the canonical shape: %s %s.%s" % n)
     print("wrote", out, "gaps:", len(gs))
